@@ -99,11 +99,39 @@ func binaryOperatorUniverse(p *Program, m *prattModel) (map[string]string, []str
 					}
 				}
 			}
+			tagR := ""
 			if tok == nil {
-				problems = append(problems, "ExprBinary built without an OpToken at "+p.InstrPos(a))
-				return
+				// the token written field by field into the node (OpToken: Token{Tag: …})
+				for _, rf := range referrersOf(a) {
+					fa, ok := rf.(*ssa.FieldAddr)
+					if !ok {
+						continue
+					}
+					if sf, ok := fieldOfAddr(fa); !ok || sf.Name != "OpToken" {
+						continue
+					}
+					for _, rr := range referrersOf(fa) {
+						fa2, ok := rr.(*ssa.FieldAddr)
+						if !ok {
+							continue
+						}
+						if sf2, ok := fieldOfAddr(fa2); !ok || sf2.Name != "Tag" {
+							continue
+						}
+						for _, r3 := range referrersOf(fa2) {
+							if st, ok := r3.(*ssa.Store); ok && st.Addr == ssa.Value(fa2) {
+								tagR = "lang.Token{Tag: " + p.Render(st.Val) + "}"
+							}
+						}
+					}
+				}
+				if tagR == "" {
+					problems = append(problems, "ExprBinary built without an OpToken at "+p.InstrPos(a))
+					return
+				}
+			} else {
+				tagR = p.Render(tok)
 			}
-			tagR := p.Render(tok)
 			where := shortName(f) + " at " + p.InstrPos(a)
 			switch {
 			case strings.HasPrefix(tagR, "lang.Token{Tag: "):
